@@ -284,7 +284,7 @@ DISPATCH_ALWAYS_INLINE
 static inline dispatch_time_t
 _dispatch_clock_and_value_to_time(dispatch_clock_t clock, uint64_t value)
 {
-	if (value >= DISPATCH_TIME_MAX_VALUE) {
+	if (value > DISPATCH_TIME_MAX_VALUE) {
 		return DISPATCH_TIME_FOREVER;
 	}
 	switch (clock) {
